@@ -44,7 +44,18 @@ def run_one(args):
                                capture_output=True, text=True)
         except Exception as e:
             r = subprocess.CompletedProcess([], 1, "", str(e))
+        if r.returncode != 0:
+            # the repository's own suite has one racy test (registry::tests::test_default_registry): retry once
+            try:
+                r = subprocess.run(["timeout", "-k", "5", "300", "cargo", "test", "--workspace", "--offline", "--no-fail-fast", "-q"], cwd=d,
+                                   env=dict(os.environ, CARGO_TARGET_DIR=os.path.join(SCRATCH, f"slot{slot}", "testtarget"), CARGO_NET_OFFLINE="true"),
+                                   capture_output=True, text=True)
+            except Exception as e:
+                r = subprocess.CompletedProcess([], 1, "", str(e))
         res["repo_tests_pass"] = r.returncode == 0
+        if r.returncode != 0:
+            import re as _re
+            res["repo_tests_failed"] = sorted(set(_re.findall(r"^test (\S+) \.\.\. FAILED", r.stdout, _re.M)))[:6] or (["timeout/hang"] if r.returncode in (124, 137) else [])
         res["repo_tests_secs"] = round(time.time() - t0, 1)
         if r.returncode != 0:
             res["repo_tests_tail"] = (r.stdout + r.stderr)[-600:]
@@ -68,7 +79,7 @@ TESTS = False
 
 def main():
     global TESTS
-    jobs = 4; only = None; prop = None
+    jobs = 4; only = None; prop = None; flagged = False
     a = sys.argv[1:]
     while a:
         x = a.pop(0)
@@ -76,8 +87,12 @@ def main():
         elif x == "--only": only = a.pop(0)
         elif x == "--prop": prop = a.pop(0)
         elif x == "--tests": TESTS = True
+        elif x == "--flagged": flagged = True
     muts = load_catalog()
-    if only: muts = [m for m in muts if only in m["id"]]
+    if only: muts = [m for m in muts if any(o in m["id"] for o in only.split(","))]
+    if flagged:
+        prev = {r["id"]: r for r in json.load(open(os.path.join(ROOT, "mutants", "results.json")))}
+        muts = [m for m in muts if prev.get(m["id"], {}).get("repo_tests_pass") is False]
     if prop: muts = [dict(m, props=[prop]) for m in muts if prop in m["props"]]
     # static slot assignment: mutant i runs in slot i % jobs, sequentially within a slot
     slots = [[] for _ in range(jobs)]
@@ -101,7 +116,7 @@ def main():
             if "error" in r:
                 f.write(f"| {r['id']} | {','.join(r['props'])} | ERROR | {r['error']} | | |\n"); continue
             tp = r.get("repo_tests_pass")
-            tnote = "" if tp is None else (" [repo tests pass]" if tp else " [REPO TESTS FAIL]")
+            tnote = "" if tp is None else (" [repo tests pass]" if tp else " [REPO TESTS FAIL: %s]" % ", ".join(r.get("repo_tests_failed", [])))
             for run in r["runs"]:
                 f.write(f"| {r['id']} | {run['prop']} | {'yes' if run['caught'] else 'NO (exit %d)' % run['exit']} | {run['signature']} | {run['secs']} | {r['note']}{tnote} |\n")
     for r in results:
